@@ -616,3 +616,130 @@ def final_c07(ctx, node, spec):
     elif not (ended_by_harvest or ended_by_date):
         V("C07:early-termination", f"run terminated after {ldate}: not the last scheduled harvest and not the day before the end date {end}")
     return out
+
+
+# ---------------------------------------------------------------------------------------------
+# C13 irrigation contracts: reference model per strategy
+
+def _root_zone(ctx, th, z_root, zmin):
+    """independent integration (no per-term rounding): WrAct, WrFC, WrWP over the root zone"""
+    rootdepth = round(max(z_root, zmin), 2)
+    act = fc = wp = 0.0
+    for i in range(ctx.ncomp):
+        top = ctx.dzsum[i] - ctx.dz[i]
+        if top >= rootdepth and i > 0 and ctx.dzsum[i - 1] >= rootdepth:
+            break
+        f = 1.0
+        if ctx.dzsum[i] > rootdepth:
+            f = 1 - ((ctx.dzsum[i] - rootdepth) / ctx.dz[i])
+        act += f * 1000 * th[i] * ctx.dz[i]
+        fc += f * 1000 * ctx.th_fc[i] * ctx.dz[i]
+        wp += f * 1000 * ctx.th_wp[i] * ctx.dz[i]
+        if ctx.dzsum[i] >= rootdepth:
+            break
+    return rootdepth, act, fc, wp
+
+
+def mon_c13(ctx, rec):
+    out = []
+    st = ctx.state.setdefault("c13", {"season": None, "cum": 0.0, "sched": None, "undecidable": 0, "decided": 0, "irrigated": 0, "cap_bound": 0})
+    spec = ctx.spec
+    m = ctx.irr_method
+    ikw = spec["irr"].get("kwargs") or {}
+    ins = ctx.in_season(rec)
+    irrday = fx(rec, "IrrDay")
+    ret = rec.proc_ret.get("irrigation") or {}
+    irr_surface = ret.get("Irr", 0.0) or 0.0
+    if not ins:
+        if irrday != 0 or irr_surface != 0:
+            out.append(("C13:irrigation-outside-season", f"day t={rec.t} {rec.date.date()}: IrrDay={irrday!r} surface application={irr_surface!r} outside a growing season"))
+        st["season"] = None
+        return out
+    if st["season"] != rec.season:
+        st["season"], st["cum"] = rec.season, 0.0
+    eps = 1e-9
+    tolmm = 0.02 * ctx.ncomp
+    max_irr, cap = ctx.max_irr, ctx.max_irr_season
+    room = max(0.0, cap - st["cum"])
+    if m == 0:
+        if irrday != 0:
+            out.append(("C13:rainfed-irrigates", f"day t={rec.t}: IrrDay={irrday!r} under the rainfed strategy"))
+    elif m == 4:
+        if irr_surface != 0:
+            out.append(("C13:net-mode-surface-application", f"day t={rec.t}: surface application {irr_surface!r} in net-irrigation mode"))
+        if irrday < -0.01 * ctx.ncomp:
+            out.append(("C13:net-requirement-negative", f"day t={rec.t}: net irrigation requirement {irrday!r}"))
+    else:
+        if irrday != irr_surface:
+            out.append(("C13:row-vs-decision", f"day t={rec.t}: IrrDay={irrday!r} but the irrigation decision returned {irr_surface!r}"))
+        if irrday > max_irr + eps:
+            out.append(("C13:exceeds-daily-maximum", f"day t={rec.t}: IrrDay={irrday!r} > MaxIrr={max_irr}"))
+        if st["cum"] + irrday > cap + 1e-9 * max(1.0, cap):
+            out.append(("C13:exceeds-seasonal-maximum", f"day t={rec.t}: season total {st['cum'] + irrday!r} > MaxIrrSeason={cap}"))
+        if irrday < 0:
+            out.append(("C13:negative-irrigation", f"day t={rec.t}: IrrDay={irrday!r}"))
+        dap = int(gr(rec, "dap"))
+        if m == 2:
+            k = int(ikw.get("IrrInterval", 3))
+            if irrday > 0 and (dap - 1) % k != 0:
+                out.append(("C13:interval-off-schedule", f"day t={rec.t} dap={dap}: IrrDay={irrday!r} but interval is {k} days (irrigation days are 1, 1+k, ...)"))
+            st["decided"] += 1
+        elif m == 3:
+            if st["sched"] is None:
+                st["sched"] = {}
+                for d, x in (spec["irr"].get("schedule") or []):
+                    st["sched"][pd.Timestamp(d.replace("/", "-"))] = float(x)
+            want = min(max_irr, st["sched"].get(rec.date, 0.0))
+            want = min(want, room)
+            if abs(irrday - want) > eps:
+                out.append(("C13:schedule-mismatch", f"day t={rec.t} {rec.date.date()}: IrrDay={irrday!r}, scheduled depth {st['sched'].get(rec.date, 0.0)} capped by MaxIrr={max_irr} and the seasonal room {room!r} gives {want!r}"))
+            st["decided"] += 1
+        elif m == 5:
+            depth = ctx.state.get("depth_in_force", float(ikw.get("depth", 0.0)))
+            want = min(max(0.0, min(max_irr, depth)), room)
+            if abs(irrday - want) > eps:
+                out.append(("C13:constant-depth-mismatch", f"day t={rec.t}: IrrDay={irrday!r}, depth in force {depth} capped by MaxIrr={max_irr} and the seasonal room {room!r} gives {want!r}"))
+            st["decided"] += 1
+        elif m == 1 and rec.irr is not None:
+            cap_i = rec.irr
+            crop = ctx.crop(rec)
+            rootdepth, act, fc, wp = _root_zone(ctx, cap_i["th"], cap_i["z_root"], float(crop.Zmin))
+            taw = max(fc - wp, 0.0)
+            dr = min(fc - act, taw)
+            abv = (act - fc) if act > fc else 0.0
+            runoff = (rec.proc_ret.get("rainfall_partition") or {}).get("Runoff", 0.0) or 0.0
+            depl = dr + cap_i["t_pot"] + cap_i["e_pot"] - rec.wx[2] + runoff - abv
+            smt = [float(x) for x in ikw.get("SMT", [100] * 4)]
+            g0 = 1 if dap == 1 else int(cap_i["growth_stage"] or 1)
+            g1 = int(rec.flags1["growth_stage"] or g0)
+            effadj = ((100 - ctx.app_eff) + 100) / 100.0
+            if taw <= 0:
+                st["undecidable"] += 1
+            else:
+                decisions = set()
+                undec = False
+                for g in {g0, g1}:
+                    thr = 1 - smt[max(1, g) - 1] / 100.0
+                    margin = depl - thr * taw
+                    if abs(margin) <= tolmm:
+                        undec = True
+                    decisions.add(margin > 0)
+                if undec or len(decisions) > 1:
+                    st["undecidable"] += 1
+                else:
+                    st["decided"] += 1
+                    should = decisions.pop()
+                    want = min(max_irr, max(0.0, depl) * effadj) if should else 0.0
+                    want_c = min(want, room)
+                    if should and want_c > tolmm * effadj and irrday <= 0:
+                        out.append(("C13:threshold-missed", f"day t={rec.t} dap={dap}: estimated depletion {depl:.3f} mm of TAW {taw:.3f} exceeds the stage-{g0} allowable {(1 - smt[max(1, g0) - 1] / 100.0) * taw:.3f} but nothing was applied"))
+                    elif (not should) and irrday > 0:
+                        out.append(("C13:threshold-spurious", f"day t={rec.t} dap={dap}: IrrDay={irrday!r} although estimated depletion {depl:.3f} mm of TAW {taw:.3f} is below the stage-{g0} allowable {(1 - smt[max(1, g0) - 1] / 100.0) * taw:.3f}"))
+                    elif should and abs(irrday - want_c) > tolmm * effadj + eps:
+                        out.append(("C13:threshold-amount", f"day t={rec.t} dap={dap}: IrrDay={irrday!r}, refill of depletion {depl:.3f} mm adjusted for efficiency and caps is {want_c!r}"))
+        if irrday > 0:
+            st["irrigated"] += 1
+        if room < max_irr and irrday > 0 and abs(irrday - room) < 1e-9:
+            st["cap_bound"] += 1
+        st["cum"] += irrday
+    return out
